@@ -228,7 +228,11 @@ mod repr {
 
             // then use newton's method
             let nm1 = n - 1;
-            let mut guess = UBig::ONE << (self.bit_len() / n); // underestimate
+            // start from an overestimate (root < 2^(bits/n) <= 2^ceil(bits/n)): from above the
+            // iteration decreases monotonically and needs O(n) steps; started from the underestimate
+            // 2^floor(bits/n), the first step overshoots by a factor of up to 2^n / n and the way
+            // back down takes O(n^2) steps
+            let mut guess = UBig::ONE << ((bits + n - 1) / n);
             let next = |x: &UBig| {
                 let y = UBig(self / x.pow(nm1).into_repr());
                 (y + x * nm1) / n
